@@ -28,8 +28,8 @@ def run(ctx):
     ]
     r1 = ctx.tlc('EmulatedOps', 'EmulatedOps_len1.cfg', workers=1, timeout=1800)
     one = r1.beh
-    if len(one) != 1055:
-        raise vlib.Infra('expected 1055 one-instruction programs, TLC produced %d' % len(one))
+    if len(one) != 1300:
+        raise vlib.Infra('expected 1300 one-instruction programs, TLC produced %d' % len(one))
     ctx.exhaustive = not quick
     if quick:
         ctx.rng.shuffle(one)
@@ -37,12 +37,12 @@ def run(ctx):
         keep, per = [], {}
         for b in one:
             op = b['prog'][0]['op']
-            if per.get(op, 0) < 8:
+            if per.get(op, 0) < 5:
                 per[op] = per.get(op, 0) + 1
                 keep.append(b)
         one = keep
-    r2 = ctx.tlc('EmulatedOps', 'EmulatedOps_len2.cfg', workers=1, simulate=(60 if quick else 600), depth=40, timeout=1800, deadlock=True)
-    r3 = ctx.tlc('EmulatedOps', 'EmulatedOps_len3.cfg', workers=1, simulate=(60 if quick else 600), depth=60, timeout=1800, deadlock=True)
+    r2 = ctx.tlc('EmulatedOps', 'EmulatedOps_len2.cfg', workers=1, simulate=(40 if quick else 600), depth=40, timeout=1800, deadlock=True)
+    r3 = ctx.tlc('EmulatedOps', 'EmulatedOps_len3.cfg', workers=1, simulate=(40 if quick else 600), depth=60, timeout=1800, deadlock=True)
     seen, behs = set(), []
     for b in one + r2.beh + r3.beh:
         k = prog_str(b['prog'])
@@ -56,7 +56,7 @@ def run(ctx):
     sets = ['mod13', 'secp256k1'] if quick else ['mod13', 'secp256k1', 'bn254fp', 'goldilocks', 'p384', 'bls12381fr', 'mod65521']
     natives = ['bn254'] if quick else ['bn254', 'bls12-377']
     byid = {b['id']: b for b in behs}
-    hinted = {'Mul', 'Sqr', 'Div', 'Inverse', 'Reduce', 'AddChain', 'IsZeroSel'}
+    hinted = {'Mul', 'Sqr', 'Div', 'Inverse', 'Reduce', 'AddChain', 'IsZeroSel', 'MulNR', 'SqrtSq', 'Exp', 'CanonBits', 'Bits', 'AssertEq', 'AssertDiff', 'LeqStrict', 'ReduceStrict', 'Eval2', 'ModMulB', 'ModAddB', 'ModExpB'}
     for native in natives:
         ps = sets if native == 'bn254' else ['mod13', 'secp256k1']
         res = ctx.harness(['emureplay', '--curve', native, '--params', ','.join(ps), '--par', '16'], behs, timeout=14000)
@@ -73,8 +73,7 @@ def run(ctx):
                     raise vlib.Infra(p)
                 import re
                 head = p.split(':')[0]
-                ops = '+'.join(sorted({i['op'] for i in b['prog']}))
-                ctx.report('emulated %s: %s [ops %s]' % (rr['params'], re.sub(r'\d{3,}', 'N', head)[:120], ops),
+                ctx.report('emulated %s: %s [%s]' % (rr['params'], re.sub(r'\d{3,}', 'N', head)[:120], prog_str(b['prog'])),
                            {'native': native, 'params': rr['params'], 'program': prog_str(b['prog']), 'problem': p})
     ctx.extra['programs'] = len(behs)
     ctx.extra['parameter_sets'] = sets
